@@ -119,6 +119,7 @@ class XGBoostSampler(MLSurrogateSampler):
             "Found loss values out of float32 limits, clipping them for XGBoost.",
             RuntimeWarning,
         )
+        y = np.copy(y)
         if len(large_floats) > 0:
             y[large_floats] = MAX_FLOAT32 - EPS_FLOAT32
 
